@@ -6,7 +6,8 @@
 From Coq Require Import List NArith ZArith Bool Arith Lia.
 Import ListNotations.
 From LC.Base Require Import Utf8.
-From LC.V1 Require Import Tok1 Matcher1 Tok1Proof Matcher1Proof Matcher1Straddle.
+From LC.Base Require Import Sort.
+From LC.V1 Require Import Tok1 Matcher1 Tok1Proof Matcher1Proof Matcher1Straddle Matcher1Inside Join1 Join1Proof.
 
 (* a token-aligned verbatim occurrence is reported with exactly its Offset and Extent (one-token occurrences included, since the "fix:") *)
 (* statement as proved in V1/Matcher1Proof.v (written out; checked against the lemma by exact) *)
@@ -60,6 +61,48 @@ Theorem C13_straddle_overshoot :
            (e - (a1 - a0))%Z = (tend tj - a1)%Z /\ (0 < e - (a1 - a0))%Z.
 Proof. exact (@exact_span_straddle_overshoot). Qed.
 Print Assumptions C13_straddle_overshoot.
+
+(* the second recorded known finding, pinned down: when no token starts where the copy starts, the scan never assigns the start index *)
+Theorem C13_start_token_never_found : forall toks a0,
+  (forall t, In t toks -> Z.of_N (t_off t) <> a0) ->
+  forall a1 i st en, fst (scan true toks a0 a1 i st en) = st.
+Proof. exact scan_start_unfound. Qed.
+Print Assumptions C13_start_token_never_found.
+
+(* ... so a copy that starts strictly inside a token is reported from the offset of the FIRST token of the text up to the end of the copy *)
+(* statement as proved in V1/Matcher1Inside.v (written out; checked against the lemma by exact) *)
+Theorem C13_occurrence_starting_inside_a_token :
+  forall (ulen : Z) (toks : list token) (i j : nat) (t0 tk tl : token) (a0 a1 : Z),
+         wf_toks ulen toks ->
+         nth_error toks 0 = Some t0 ->
+         nth_error toks i = Some tk ->
+         nth_error toks j = Some tl ->
+         i <= j ->
+         (Z.of_N (t_off tk) < a0)%Z ->
+         (a0 < Z.of_N (t_off tk) + Z.of_nat (length (t_text tk)))%Z ->
+         a1 = (Z.of_N (t_off tl) + Z.of_nat (length (t_text tl)))%Z ->
+         exact_span true toks ulen a0 a1 = XSpan (Z.of_N (t_off t0)) (a1 - Z.of_N (t_off t0)).
+Proof. exact (@exact_span_starts_inside). Qed.
+Print Assumptions C13_occurrence_starting_inside_a_token.
+
+(* ... which is wrong at the front by exactly the distance from the start of the text to the copy, and exact at the back *)
+(* statement as proved in V1/Matcher1Inside.v (written out; checked against the lemma by exact) *)
+Theorem C13_starts_inside_overshoot :
+  forall (ulen : Z) (toks : list token) (i j : nat) (t0 tk tl : token) (a0 a1 : Z),
+         wf_toks ulen toks ->
+         nth_error toks 0 = Some t0 ->
+         nth_error toks i = Some tk ->
+         nth_error toks j = Some tl ->
+         i <= j ->
+         (Z.of_N (t_off tk) < a0)%Z ->
+         (a0 < Z.of_N (t_off tk) + Z.of_nat (length (t_text tk)))%Z ->
+         a1 = (Z.of_N (t_off tl) + Z.of_nat (length (t_text tl)))%Z ->
+         exists o e : Z,
+           exact_span true toks ulen a0 a1 = XSpan o e /\
+           (a0 - o)%Z = (a0 - Z.of_N (t_off t0))%Z /\
+           (0 < a0 - o)%Z /\ (o + e)%Z = a1 /\ (e - (a1 - a0))%Z = (a0 - Z.of_N (t_off t0))%Z.
+Proof. exact (@exact_span_starts_inside_overshoot). Qed.
+Print Assumptions C13_starts_inside_overshoot.
 
 (* the scan as found was already exact for occurrences of at least two tokens *)
 (* statement as proved in V1/Matcher1Proof.v (written out; checked against the lemma by exact) *)
